@@ -4,6 +4,7 @@ import math
 import numpy as np
 from hypothesis import strategies as st
 
+from vk import gen
 from vk import models as M
 
 ID = "C17"
@@ -64,7 +65,7 @@ def build(case):
     rng = np.random.default_rng(case["seed"])
     bins, segs = [], []
     for c in case["chroms"]:
-        pos = int(rng.integers(0, 1000))
+        pos = int(rng.integers(0, 1000)) + gen.offset_for(case)
         for s in c["segs"]:
             start = pos
             vals = []
